@@ -6,6 +6,7 @@ ROOT = os.path.dirname(os.path.dirname(os.path.abspath(__file__)))
 R = {
  8: {"caught": "C01 C02 C03 C04 C05 C07 C08 C09 C13 C15 C16 C17 C19", "no-failing-input-found": "C10 C11 C14 C20", "missed": "C06 C12"},
  9: {"caught": "C02 C03 C04 C05 C06 C07 C08 C09 C10 C15 C16 C18 C19 C20", "no-failing-input-found": "C11 C12 C14 C17", "missed": "C01 C13"},
+ 13: {"caught": "C05 C06 C09 C19 C20", "no-failing-input-found": "C12", "missed": "C03"},
  12: {"caught": "C02 C04 C05 C06 C09 C10 C13 C14 C15 C16 C17 C18 C19 C20", "no-failing-input-found": "C11 C12", "missed": "C01 C03 C07 C08"},
  11: {"caught": "C02 C03 C04 C05 C06 C09 C10 C12 C13 C14 C17 C18 C19 C20", "no-failing-input-found": "C01 C08 C11 C15 C16", "missed": "C07"},
  10: {"caught": "C02 C03 C05 C06 C09 C11 C12 C17", "no-failing-input-found": "C01 C08 C10 C15 C18 C19 C20", "missed": "C04 C07 C13 C14 C16"},
